@@ -33,3 +33,4 @@ def check(repo, rep, tier):
     fr = rs.rule_store_snapshot(em, rep, 'C07.S1')
     rs.rule_fresh_per_use(em, rep, 'C07.S2', fr)
     rx.rule_facts_immutable(em, rep, 'C07.S4')
+    rq.rule_facts_first(em, rep, 'C07.Q1')
